@@ -285,10 +285,45 @@ def arch_curve(draw, nk, center, rlo, rhi, cw=False, degree=2):
 
 
 @st.composite
+def band_curve(draw, nk, center, rlo, rhi, cw=False):
+    """arch-shaped band: an outer arch of two quadratic arcs, two short
+    straight feet and an inner arch of one quadratic arc whose control point
+    lies *above* the outer arch.  The curve is simple and counter-clockwise,
+    but its control polygon is not (it folds over itself): orientation, area
+    and containment must come from the curve, not from the control points."""
+    snap = draw(snapper(nk if nk != "mixed" else "frac"))[0]
+    R = rlo + (rhi - rlo) * draw(st.floats(0.2, 1.0))
+    r = R * draw(st.sampled_from([0.8, 0.9]))
+    hc = R * draw(st.sampled_from([1.5, 1.7, 1.8]))
+    rot = draw(st.integers(0, 3))
+    raw = [[(R, 0.0), (R / 2, R), (0.0, R)], [(0.0, R), (-R / 2, R), (-R, 0.0)], [(-R, 0.0), (-r, 0.0)],
+           [(-r, 0.0), (0.0, hc), (r, 0.0)], [(r, 0.0), (R, 0.0)]]
+
+    def place(p):
+        x, y = p
+        for _ in range(rot):
+            x, y = -y, x
+        return snap((x + center[0], y + center[1] - 0.4 * R * (1 if rot == 0 else 0)))
+
+    cache = {}
+
+    def pl(p):
+        if p not in cache:
+            cache[p] = place(p)
+        return cache[p]
+
+    curve = [[pl(p) for p in seg] for seg in raw]
+    assume(rg.curve_area(curve) > 0)
+    return rg.curve_reverse(curve) if cw else curve
+
+
+@st.composite
 def simple_curve(draw, nk="int", degrees=(1,), center=(0.0, 0.0), rlo=6.0, rhi=14.0,
                  cw=False, templates=True, nseg=(3, 7)):
     if 2 in tuple(degrees) and nseg[0] <= 3 and draw(st.integers(0, 7)) == 0:
         return draw(fillet_curve(nk, center, rlo, rhi, cw))
+    if 2 in tuple(degrees) and 1 in tuple(degrees) and nseg[0] <= 5 and draw(st.integers(0, 7)) == 0:
+        return draw(band_curve(nk, center, rlo, rhi, cw))
     if (2 in tuple(degrees) or 3 in tuple(degrees)) and nseg[0] <= 4 and draw(st.integers(0, 7)) == 0:
         return draw(arch_curve(nk, center, rlo, rhi, cw, 2 if 2 in tuple(degrees) else 3))
     if templates and tuple(degrees) == (1,) and center == (0.0, 0.0) and draw(st.integers(0, 3)) == 0:
